@@ -3,7 +3,7 @@
    oriented lines, field arrays) carry an identity (loc); two values share state exactly when they contain a node
    with the same identity.  An in-place edit of the object with identity l changes every value that contains it. *)
 From Coq Require Import List String Ascii ZArith Bool.
-From GfaV Require Import Base.Py.
+From GfaV Require Import Base.Py Gen.K_clone.
 Import ListNotations.
 Open Scope string_scope.
 Open Scope list_scope.
@@ -40,15 +40,20 @@ Fixpoint write (target : loc) (tag' : string) (kids' : list tree) (t : tree) : t
 Inductive vkind := VStr | VList | VOriented | VFieldArray | VOtherImmutable | VOtherMutable.
 Inductive mode := Share | Deep | Render.
 
+(* the rule is the regenerated if/elif chain of Cloning.clone (Gen/K_clone.v) *)
+Definition is_kind (a b : vkind) : bool :=
+  match a, b with
+  | VStr, VStr | VList, VList | VOriented, VOriented | VFieldArray, VFieldArray
+  | VOtherImmutable, VOtherImmutable | VOtherMutable, VOtherMutable => true
+  | _, _ => false
+  end.
+
+Definition mode_of_string (s : string) : mode :=
+  if String.eqb s "render" then Render else if String.eqb s "deep" then Deep else Share.
+
 Definition clone_mode (reference_field json_field : bool) (k : vkind) : mode :=
-  if reference_field then Render
-  else if json_field then Deep
-  else match k with
-       | VList | VStr => Deep
-       | VOriented => Deep
-       | VFieldArray => Deep
-       | VOtherImmutable | VOtherMutable => Share
-       end.
+  mode_of_string (k_clone_mode reference_field json_field (is_kind k VList) (is_kind k VStr) (is_kind k VOriented)
+                               (is_kind k VFieldArray)).
 
 Record field := mkField { f_name : string; f_ref : bool; f_json : bool; f_kind : vkind; f_val : tree }.
 Definition pline := list field.
